@@ -41,6 +41,25 @@ class Monitor(Observer):
 def check_program(ctx, bt, spec, b, log):
     for key, msg in M.index_check(bt, b.strategy, len(b.dates), bt.core.PAR):
         ctx.violation("C03/" + key, msg, {"spec": spec, "mode": "program"})
+    # the flows the recurrence is evaluated with must be the flows that were really injected: every external `adjust(flow=True)`
+    # on the root (initial capital, CapitalFlow, user algos - also those issued with update=False) is in the row of its date
+    flows = getattr(b, "_verif_flow_log", None)
+    if flows is not None and hasattr(b.strategy, "data"):
+        root = b.strategy
+        idx = list(root.data.index)
+        want = {}
+        for name, now, amount, is_flow, is_root in flows:
+            if is_flow:
+                # the initial capital is injected before the first update: it belongs to the first row
+                k = 0 if (isinstance(now, int) and now == 0) else idx.index(now)
+                want[k] = want.get(k, 0.0) + amount
+        rec = [float(x) for x in root._all_flows.values]
+        ctx.count("flow-rows-checked", len(rec))
+        for k in range(len(rec)):
+            w = want.get(k, 0.0)
+            if abs(rec[k] - w) > 1e-9 * max(1.0, abs(rec[k]), abs(w)):
+                ctx.violation("C03/flows-row", "date#%d: recorded flows %r, injected as flows on that date %r" % (k, rec[k], w), {"spec": spec, "mode": "program"})
+                break
 
 
 def cash_only(ctx, bt, n):
